@@ -71,10 +71,12 @@ func (t *Dense) UT() {
 // SafeT is exactly like T(), except it returns a new *Dense. The data is also copied over, unmoved.
 func (t *Dense) SafeT(axes ...int) (retVal *Dense, err error) {
 	var transform AP
+	var noop bool
 	if transform, axes, err = t.AP.T(axes...); err != nil {
 		if err = handleNoOp(err); err != nil {
 			return
 		}
+		noop = true
 	}
 
 	retVal = recycledDense(t.t, Shape{t.len()}, WithEngine(t.e))
@@ -83,6 +85,10 @@ func (t *Dense) SafeT(axes ...int) (retVal *Dense, err error) {
 	retVal.e = t.e
 	retVal.oe = t.oe
 	retVal.AP = transform
+	if noop {
+		// nothing was permuted: there is no transpose to undo or to materialize
+		return
+	}
 	t.AP.CloneTo(&retVal.old)
 	// the axes may be the caller's slice: keep a private copy, UT() hands it back to the pool
 	retVal.transposeWith = BorrowInts(len(axes))
